@@ -244,7 +244,7 @@ def main(argv=None):
         print('# phase %-4s runs=%d compared=%d violations=%d errors=%d wall=%.1fs' % (
             mode, stats.get('runs', 0), stats.get('compared', 0), len(viols), len(errors), wall))
         sys.stdout.flush()
-        if viols:
+        if viols and prop.stop_on_violation(viols):
             break
 
     det = None
